@@ -77,6 +77,17 @@ BaseAtts == <<At("id", "i"), At("class", "c")>>
 Base(tal) == El("p", BaseAtts, Written(tal), <<TextN("T"), El("b", <<>>, <<>>, <<TextN("k")>>)>>)
 Wrap(el) == <<TextN("["), el, TextN("]")>>
 
+\* a repeated element with original attributes id, class whose child has TAL commands and the attributes id, title
+AttrsBase(tal) == El("p", BaseAtts, Written(tal),
+                     <<TextN("T"), El("b", <<At("id", "kid"), At("title", "tt")>>, <<CContent(Alt(<<P("x"), P("attrs/title")>>), FALSE)>>, <<TextN("k")>>)>>)
+AttrsTals == {<<CRepeat("x", r)>> \o t :
+                 r \in {P("lst"), P("one")},
+                 t \in {<<CAttributes(<<Item(FALSE, "class", P(a))>>)>> : a \in {"attrs/id", "attrs/title", "attrs/zz"}}
+                      \cup {<<COmit(P("attrs/title"))>>, <<COmit(Not(P("attrs/class")))>>,
+                            <<CContent(Alt(<<P("attrs/title"), P("default")>>), FALSE)>>, <<CReplace(Alt(<<P("attrs/title"), P("default")>>), FALSE)>>,
+                            <<CCondition(P("attrs/class")), CAttributes(<<Item(FALSE, "title", S(<<Sub(P("attrs/id")), Lit("-"), Sub(P("repeat/x/number"))>>))>>)>>,
+                            <<CDefine(<<Item(FALSE, "v", P("attrs/id"))>>), CAttributes(<<Item(FALSE, "class", Alt(<<P("attrs/title"), P("v")>>))>>), COmit(P("attrs/zz"))>>}}
+
 \* ---- family expr -----------------------------------------------------------------------------------------
 ExprTrees ==
     {Wrap(Base(<<CContent(e, FALSE)>>)) : e \in ExprSet}
@@ -100,6 +111,10 @@ ExprTrees ==
     \cup {Wrap(Base(<<CRepeat("x", P("recs")), CAttributes(<<Item(FALSE, "class", Alt(<<P("x/label"), P("default")>>)),
                                                               Item(FALSE, "title", Alt(<<P("x/other"), P("nothing")>>))>>)>> \o ct)) :
               ct \in Opt({CContent(Alt(<<P("x/label"), P("default")>>), FALSE), CReplace(Alt(<<P("x/other"), P("default")>>), FALSE)})}
+
+    \* `attrs` = the ORIGINAL attributes of the element whose command is evaluated - also in the 2nd and later iterations
+    \* of a repeat, after a child element with its own TAL commands and its own (different) attributes has been expanded
+    \cup {Wrap(AttrsBase(t)) : t \in AttrsTals}
 
 \* ---- family one: every subset of the six commands ---------------------------------------------------------
 Define1a == CDefine(<<Item(FALSE, "v", P("lt"))>>)
@@ -128,11 +143,11 @@ VoidTrees == {<<TextN("["), El("img", <<At("src", "u"), At("alt", "a<")>>, Writt
 
 \* ---- family nest: parent x child ---------------------------------------------------------------------------------
 PDefine  == Opt({CDefine(<<Item(FALSE, "v", P("s"))>>), CDefine(<<Item(TRUE, "gv", P("s"))>>)})
-PCond    == Opt({CCondition(P("n")), CCondition(P("z"))})
+PCond    == Opt({CCondition(P("n"))})      \* (a false condition on the parent is family one's business: it would blank every child combination)
 PRepeat  == Opt({CRepeat("r", P("rows")), CRepeat("r", P("lst")), CRepeat("r", P("el"))})
 PContent == Opt({CContent(P("default"), FALSE), CContent(P("s"), FALSE)})
-PAttr    == Opt({CAttributes(<<Item(FALSE, "id", Alt(<<P("repeat/r/number"), P("s")>>))>>)})
-POmit    == Opt({COmit(NoE)})
+PAttr    == Opt({CAttributes(<<Item(FALSE, "id", Alt(<<P("repeat/r/number"), P("s")>>)), Item(FALSE, "title", Alt(<<P("attrs/class"), P("attrs/id")>>))>>)})
+POmit    == Opt({COmit(NoE), COmit(P("attrs/class"))})
 KDefine  == Opt({CDefine(<<Item(FALSE, "v", P("lt"))>>), CDefine(<<Item(TRUE, "gv", Alt(<<P("r"), P("lt")>>))>>)})
 KCond    == Opt({CCondition(Alt(<<P("r"), P("v"), P("gv"), P("zz")>>))})
 KRepeat  == Opt({CRepeat("c", P("r")), CRepeat("c", P("lst")), CRepeat("r", P("one"))})
@@ -142,7 +157,7 @@ KAttr    == Opt({CAttributes(<<Item(FALSE, "title", Alt(<<P("attrs/id"), P("v")>
 NestSib  == El("i", <<>>, <<CContent(Alt(<<P("v"), P("gv"), P("r"), P("c"), S(<<Lit("none")>>)>>), FALSE)>>, <<TextN("o")>>)
 NestTree(ptal, ktal) ==
     <<El("div", <<At("id", "d")>>, Written(ptal),
-         <<TextN("("), El("span", <<At("id", "k")>>, Written(ktal), <<TextN("k")>>), TextN(")")>>), NestSib>>
+         <<TextN("("), El("span", <<At("id", "k"), At("class", "kc")>>, Written(ktal), <<TextN("k")>>), TextN(")")>>), NestSib>>
 \* three levels: repeat in repeat in repeat, define shadowing at every level (depth 3)
 DeepTrees == {<<El("ul", <<>>, Written(<<CRepeat("a", P("rows"))>> \o d1),
                    <<El("li", <<>>, Written(<<CRepeat("b", ab)>> \o d2),
